@@ -154,8 +154,6 @@ class Run:
     def drive(self, driver, outdir=None, env=None):
         outdir = outdir or os.path.join(self.work, "tr_" + driver)
         e = dict(os.environ, VERIF_DOMAIN_DIR=self.domain)
-        if self.tier == "thorough" and "VERIF_SCALE" not in e:
-            e["VERIF_SCALE"] = "300"          # the thorough tier triples every seeded budget of the drivers
         if env:
             e.update(env)
         p = subprocess.run([self.harness, "drive", driver, self.tier, str(self.seed), outdir, str(NSHARDS)],
